@@ -155,6 +155,34 @@ def gen_argval(r):
     return r.randrange(0, 10)
 
 
+# the `enabled` flag is an ordinary setting: a configuration (`enabled: 1`), a constructor, Processor.set or an override
+# text ('1' -> int 1) can put any value there.  Non-bool truthy / falsy values are the inputs on which two readers of
+# the flag (validation of a sweep, execution of the pipeline) can disagree.
+FLAG_VALUES = [1, 0, 1.0, 0.0, 2, "yes", "", None, {"t": "npbool", "v": True}, {"t": "npbool", "v": False}, "false", 0.5]
+
+
+def gen_flag(r):
+    if r.random() < 0.7:
+        return r.random() < 0.75
+    v = r.choice(FLAG_VALUES)
+    return v if isinstance(v, dict) else jv(v)
+
+
+def flag_truthy(e) -> bool:
+    if not isinstance(e, dict):
+        return bool(e)
+    t = e["t"]
+    if t in ("bool", "npbool"):
+        return bool(e["v"])
+    if t == "int":
+        return int(e["v"]) != 0
+    if t == "dec":
+        return int(e["m"]) != 0
+    if t == "str":
+        return e["v"] != ""
+    return False
+
+
 def gen_pipe(r, rich=True):
     pipe = {}
     for g in r.sample(GROUPS, r.randrange(1, 4)):
@@ -171,7 +199,7 @@ def gen_pipe(r, rich=True):
                     args[a] = jv([1, 2, 3])
                 else:
                     args[a] = jv(gen_argval(r))
-            m = dict(func=f"pyxel.models.{g}.{n}", name=n, enabled=r.random() < 0.75, arguments=args)
+            m = dict(func=f"pyxel.models.{g}.{n}", name=n, enabled=gen_flag(r), arguments=args)
             models.append(m)
         pipe[g] = models
     return pipe
@@ -641,7 +669,7 @@ def _model_enabled(pipe, key: str) -> bool:
         return True
     for m in pipe.get(parts[1], []):
         if m["name"] == parts[2]:
-            return bool(m["enabled"])
+            return flag_truthy(m["enabled"])
     return True
 
 
@@ -799,14 +827,73 @@ def gen_validate_cases(ctx: Ctx, budget: int):
             continue
         # a step that is switched off is not part of the sweep, whatever its key (only enabled steps reach Coq)
         c = dict(op="validate", det=det, pipe=pipe, keys=keys, kinds=kinds,
-                 step_enabled=[r.random() < 0.8 for _ in keys])
+                 step_enabled=[r.random() < 0.8 for _ in keys], values=[sweep_values(r, k) for k in keys])
+        if r.random() < 0.25:
+            # the flag of a swept model arrived through a key (Processor.set / an override text) before the sweep
+            pk = [k for k in keys if k.startswith("pipeline.") and len(k.split(".")) >= 4]
+            if pk:
+                parts = r.choice(pk).split(".")
+                c["pre"] = [[".".join(parts[:3] + ["enabled"]), jv(r.choice(PRE_FLAG_VALUES)), r.choice(["set", "override"])]]
         if len(cases) % 3 == 0:
-            # also run the sweep itself (every model is the probe `verif_probes_c08.record`): with a bad key among the
-            # steps it must fail before any model executes
-            c["run"] = True
-            c["mode"] = r.choice(["product", "sequential"])
-            c["pipe"] = {g: [dict(m, func="verif_probes_c08.record") for m in ms] for g, ms in pipe.items()}
+            run_variant(r, c)
         cases.append(c)
+    return cases
+
+
+ENABLED_SWEEPS = [[0, 1], [True, False], [1, 2], [2, 0.0, 1.0], ["1", "0"], ["True", "False"], ["yes", "no"], [0, 0.0], [1, 0, 1]]
+PRE_FLAG_VALUES = ["1", 1, "0", 0, "True", "False", 1.0, True, False, "yes", 2, "1.0"]
+
+
+def sweep_values(r, key: str):
+    if key.endswith(".enabled"):
+        return [jv(x) for x in r.choice(ENABLED_SWEEPS)]
+    if r.random() < 0.7:
+        return [jv(1), jv(2)]
+    return [jv(x) for x in r.choice([["1", "2"], [0.5, 4], ["3", 7], [1, 2, 3], ["0.25", 2]])]
+
+
+def run_variant(r, c):
+    """also run the sweep itself; every model is a tagged probe (`verif_probes_c08.rec__<group>__<model>`) that notes
+    that it was executed and with which argument values: with a bad key among the steps the sweep must fail before any
+    model executes; an accepted sweep that completes must have had its effect on the models it addresses"""
+    c["run"] = True
+    c["mode"] = r.choice(["product", "sequential"])
+    c["pipe"] = {g: [dict(m, func=f"verif_probes_c08.rec__{g}__{m['name']}") for m in ms] for g, ms in c["pipe"].items()}
+    return c
+
+
+def exhaustive_flag_cases(ctx: Ctx):
+    """every non-bool (and bool) value of the `enabled` flag x the way it arrives (configuration / constructor,
+    Processor.set, override text) x what is swept (an argument of that model, an item of its dict-valued argument, the
+    flag itself) — each sweep is RUN with the tagged probe models."""
+    r = ctx.rng("exh_flag")
+    cases = []
+    g, n = "photon_collection", "illumination"
+
+    def pipe_with(flag):
+        return {g: [dict(func="f.shot", name="shot_noise", enabled=True, arguments={"seed": jv(3)}),
+                    dict(func="f.illumination", name=n, enabled=flag,
+                         arguments={"level": jv(7), "d": {"t": "dictv", "v": {"k": jv(1), "w": jv("foo")}}})],
+                "charge_generation": [dict(func="f.conv", name=n, enabled=True, arguments={"level": jv(5)})]}
+
+    arrivals = []
+    for v in [True, False] + FLAG_VALUES:
+        arrivals.append((v if isinstance(v, (bool, dict)) else jv(v), None))
+    for v in PRE_FLAG_VALUES:
+        arrivals.append((r.choice([True, False]), [f"pipeline.{g}.{n}.enabled", jv(v), r.choice(["set", "override"])]))
+    for flag, pre in arrivals:
+        for keys in ([f"pipeline.{g}.{n}.arguments.level"], [f"pipeline.{g}.{n}.arguments.d.k", "detector.geometry.row"]):
+            c = dict(op="validate", det=r.choice(["ccd", "cmos", "mkid", "apd"]), pipe=pipe_with(flag), keys=keys,
+                     kinds=["valid_arg" if "arguments" in k else "valid_geo" for k in keys], step_enabled=[True] * len(keys),
+                     values=[sweep_values(r, k) for k in keys])
+            if pre:
+                c["pre"] = [pre]
+            cases.append(run_variant(r, c))
+    for vs in ENABLED_SWEEPS:
+        for flag in (True, jv(1)):
+            c = dict(op="validate", det="ccd", pipe=pipe_with(flag), keys=[f"pipeline.{g}.{n}.enabled"], kinds=["enabled_flag"],
+                     step_enabled=[True], values=[[jv(x) for x in vs]])
+            cases.append(run_variant(r, c))
     return cases
 
 
@@ -918,12 +1005,17 @@ def emit_validate_file(pairs) -> str:
             cran = f"(Some (None, {core.cnat(ran['ok'])}))"
         else:
             cran = f"(Some (Some {ran['raise']}, {core.cnat(ran['calls'])}))"
+        values = c.get("values") or [[jv(1), jv(2)] for _ in c["keys"]]
+        vals = [vs for vs, en in zip(values, c["step_enabled"]) if en]
+        seen = [sn for sn, en in zip(o.get("seen") or [], c["step_enabled"]) if en]
+        cvals = core.clist(core.clist(cv(x) for x in vs) for vs in vals)
+        cseen = core.clist(f"({core.cnat(n)}, {core.clist(cv(x) for x in sv)})" for n, sv in seen)
         items.append(f"{{| v_tree := {pool.tree(o['before'])}; v_keys := {core.clist(core.cstr(k) for k in keys)}; "
-                     f"v_obs := {core.copt(o['validate'], str)}; v_ran := {cran} |}}")
+                     f"v_obs := {core.copt(o['validate'], str)}; v_ran := {cran};\n     v_vals := {cvals}; v_seen := {cseen} |}}")
     body = ";\n  ".join(items)
     return (HEADER + "\n".join(pool.defs) + f"\nDefinition cases : list vcase := [\n  {body}\n].\n"
             "Eval vm_compute in v_mismatches cases.\nEval vm_compute in v_violations 1 cases.\nEval vm_compute in v_violations 2 cases.\n"
-            "Eval vm_compute in v_violations 3 cases.\n")
+            "Eval vm_compute in v_violations 3 cases.\nEval vm_compute in v_violations 4 cases.\n")
 
 
 # ------------------------------------------------------------------------------------------ classification (signature only)
@@ -1195,7 +1287,7 @@ def leg_validate(ctx: Ctx, cases, tag="v"):
     for k, name in enumerate(sorted(files)):
         ok, evals, se = res[name]
         chunk = pairs[k * per:(k + 1) * per]
-        if not ok or len(evals) != 4:
+        if not ok or len(evals) != 5:
             ctx.broken.append(Broken("correspondence", f"case file {name}.v did not evaluate", core.tail(se, 15)))
             continue
         for i in core.parse_int_list(evals[0]):
@@ -1203,7 +1295,7 @@ def leg_validate(ctx: Ctx, cases, tag="v"):
             ctx.broken.append(Broken("correspondence", "Model/Keys.v validate_steps vs Observation.validate_steps",
                                      f"model and implementation differ on steps {c['keys']}: implementation gives {o['validate']}",
                                      dict(case={k: c[k] for k in ("det", "pipe", "keys")}, observed=o["validate"])))
-        for n, clause in ((1, "validate_silent"), (2, "validate_refused"), (3, "sweep_ran")):
+        for n, clause in ((1, "validate_silent"), (2, "validate_refused"), (3, "sweep_ran"), (4, "sweep_noop")):
             for i in core.parse_int_list(evals[n]):
                 c, o = chunk[i]
                 ctx.violations.append(validate_violation(ctx, c, o, clause))
@@ -1224,6 +1316,21 @@ def validate_violation(ctx, c, o, clause) -> Violation:
              kinds=[k for k, en in zip(c["kinds"], c["step_enabled"]) if en], all_keys=c["keys"], all_kinds=c["kinds"])
     only_flag = all(k == "enabled_flag" or k.startswith("valid_") for k in c["kinds"]) and "enabled_flag" in c["kinds"]
     sig = dict(clause=clause, error=o["validate"] or "none")
+    if clause == "sweep_noop":
+        keys_en = c["keys"]
+        seen = [sn for sn, en in zip(o.get("seen") or [], c["step_enabled"]) if en]
+        flags = sorted({_flag_class(o["before"], k.split(".")[:3]) for k in keys_en if k.startswith("pipeline.")})
+        sig = dict(clause=clause, swept="+".join(sorted({"flag" if k.endswith(".enabled") else "argument" for k in keys_en
+                                                         if k.startswith("pipeline.")})), flag="+".join(flags))
+        case = {k: c[k] for k in ("op", "det", "pipe", "step_enabled", "run", "mode", "values", "pre") if k in c}
+        case["keys"], case["kinds"] = c["all_keys"], c["all_kinds"]
+        return Violation(clause=clause, case=case, observed=dict(validate=o["validate"], ran=o.get("ran"), seen=seen),
+                         expected="an accepted sweep that completes has its effect: every swept value of a model argument arrives "
+                                  "in an execution of that model; a swept `enabled` flag runs the model exactly for its truthy values",
+                         what=f"Observation.run_pipelines ({c.get('mode', 'product')}) on steps {keys_en} was accepted and completed "
+                              f"({o.get('ran')}), but it is a silent no-op: executions of the addressed model / values that arrived per "
+                              f"step = {seen}; `enabled` flag of the swept model(s): {flags}"
+                              + (f"; flag assigned before by {c['pre']}" if c.get("pre") else ""), sig=sig)
     if clause == "validate_refused":
         sig["step_kind"] = "enabled_flag" if only_flag else "+".join(sorted(set(c["kinds"])))
     else:
@@ -1258,6 +1365,25 @@ def validate_violation(ctx, c, o, clause) -> Violation:
                      sig=sig)
 
 
+def _flag_class(tree, parts):
+    """classification (signature only) of the value the enabled flag of the model at `parts` holds"""
+    node = tree
+    for p in parts:
+        if "leaf" in node:
+            return "unknown"
+        m = next((m for m in node["members"] if m[0] == p), None)
+        if m is None:
+            return "unknown"
+        node = m[3]
+    if "leaf" in node:
+        return "unknown"
+    m = next((m for m in node["members"] if m[0] == "enabled"), None)
+    if m is None or "leaf" not in m[3]:
+        return "unknown"
+    lv = m[3]["leaf"]
+    return "bool" if lv["t"] == "bool" else "non_bool_" + lv["t"]
+
+
 def _enabled_of(tree, parts):
     node = tree
     for p in parts:
@@ -1273,7 +1399,7 @@ def _enabled_of(tree, parts):
     if m is None or "leaf" not in m[3]:
         return None
     lv = m[3]["leaf"]
-    return bool(lv.get("v")) if lv["t"] == "bool" else None
+    return flag_truthy(lv) if lv["t"] in ("bool", "int", "dec", "str", "none") else None
 
 
 def new_violations(ctx: Ctx):
@@ -1304,7 +1430,7 @@ def run(ctx: Ctx):
         nm += dnm2
     texts = gen_eval_cases(ctx, ctx.budget(900, 6000))
     triples = leg_eval(ctx, texts)
-    vcases = gen_validate_cases(ctx, ctx.budget(240, 1500))
+    vcases = exhaustive_flag_cases(ctx) + gen_validate_cases(ctx, ctx.budget(240, 1500))
     vpairs = leg_validate(ctx, vcases)
 
     distinct = {(c["det"], c["key"], json.dumps(c["value"], sort_keys=True), json.dumps(c["pipe"], sort_keys=True)) for c, o in pairs
@@ -1400,7 +1526,8 @@ def replay(ctx: Ctx, rp: dict) -> int:
         o = core.run_driver(ctx, "c08", [case], workers=1)[0]
         print("implementation now:", o.get("validate"))
         ok, evals, se = core.coq_eval(ctx, "replay", emit_validate_file([(case, o)]))
-        bad = ok and any(core.parse_int_list(evals[n]) != [] for n in (1, 2, 3))
+        print("  sweep:", o.get("ran"), " executions / arrived values per step:", o.get("seen"))
+        bad = ok and any(core.parse_int_list(evals[n]) != [] for n in (1, 2, 3, 4))
     if not ok:
         print("case file did not evaluate:", core.tail(se, 10))
         return 1
